@@ -11,6 +11,7 @@ CONSTANTS
   Tmo = {0, 2}
   Horizon = 3
   AllowFaults = FALSE
+  AllowCancel = FALSE
   AbstractTime = FALSE
   LeakSearchIdOnDone = FALSE
   AbandonKeepsTargetId = FALSE
